@@ -381,13 +381,14 @@ func Run(args []string) int {
 		out.Flush()
 	}
 	ctrllog.SetLogger(logr.Discard())
-	ws, err := parseWatchSpec(*watchSpec, predEnv{controller: p.DefaultController,
+	ws, err := parseWatchSpec(*watchSpec, predEnv{controller: p.DefaultController, class: p.DefaultClass,
 		ngfSvc: types.NamespacedName{Namespace: podConfig.Namespace, Name: podConfig.ServiceName}})
 	if err != nil {
 		emit("X 0 watch-table: %v", err)
 		return 0
 	}
-	rn := &Runner{Watches: ws, CheckEvery: true}
+	rn := &Runner{Watches: ws, CheckEvery: true, Samples: 48}
+	quick := &Runner{Watches: ws, CheckEvery: true, Samples: 8} // for shrinking: candidates are re-judged by rn
 
 	var hists []*History
 	if *replay != "" {
@@ -418,6 +419,7 @@ func Run(args []string) int {
 	}
 
 	failures := 0
+	seenSig := map[string]int{}
 	for id, h := range hists {
 		res := rn.Run(h)
 		tags := make([]string, 0, len(h.Tags))
@@ -444,7 +446,7 @@ func Run(args []string) int {
 		}
 		// a divergence must reproduce (the build is not deterministic on some inputs, see Runner.Run)
 		class, flaky := res.FailClass(), false
-		for k := 0; res.Fail >= 0 && k < 5 && !flaky; k++ {
+		for k := 0; res.Fail >= 0 && k < 2 && !flaky; k++ {
 			if r2 := rn.Run(h); r2.Fail < 0 || r2.FailClass() != class {
 				flaky = true
 			}
@@ -462,12 +464,17 @@ func Run(args []string) int {
 		}
 		if res.Fail >= 0 && !flaky {
 			failures++
-			small := rn.shrink(h, class, *shrinkBudget)
+			budget := *shrinkBudget
+			if seenSig[res.Signature()] >= 3 {
+				budget /= 6 // this failure class has been minimised several times already
+			}
+			small := quick.shrink(h, class, budget)
 			sres := rn.Run(small)
 			if sres.Fail < 0 || sres.FailClass() != class {
 				small, sres = h, res
 			}
 			sig := sres.Signature()
+			seenSig[sig]++
 			d := encodeHistory(small)
 			d.Signature = sig
 			d.Story = story(sres)
